@@ -5,6 +5,7 @@ From B2Z Require Gen.GenBuffer.
 From B2Z Require Import Base.SanPrims Gen.GenSanitise Bridge.BridgeSanitise.
 From B2Z Require Import Base.EncSkel Gen.GenEncoders Bridge.BridgeEncoders.
 From B2Z Require Gen.GenExplode Bridge.BridgeExplode.
+From B2Z Require Import Gen.GenTransform Bridge.BridgeTransform.
 Import ListNotations.
 Open Scope nat_scope.
 
@@ -175,6 +176,22 @@ Theorem translated_string_scalar :
   gen_string_scalar None = Ok str_missing.
 Proof. exact translated_string_scalar_lemma. Qed.
 Print Assumptions translated_string_scalar.
+
+(* explode THEN encode, both translated: a tuple-valued INFO value as cyvcf2 hands it over (None for '.') goes through the
+   translated transformer (missing_value_map, VcfValueTransformer.transform: translator/transf2coq.py) and the translated
+   sanitiser to exactly the VCF Zarr row encoding -- the premises int_raw / float_raw of the sanitiser theorems are discharged
+   from the source for these fields *)
+Theorem translated_info_tuple_pipeline : forall w old value,
+  match value with Some cells => Forall int_cell_ok cells /\ (length cells <= w)%nat | None => True end ->
+  gen_int_1d w old (gen_transform_opt gen_transform_int value) = Ok (enc_vec c_INT_MISSING c_INT_FILL w value).
+Proof. exact translated_info_tuple_pipeline_lemma. Qed.
+Print Assumptions translated_info_tuple_pipeline.
+
+Theorem translated_info_tuple_pipeline_float : forall w old value,
+  match value with Some cells => Forall float_cell_ok cells /\ (length cells <= w)%nat | None => True end ->
+  gen_float_1d w old (gen_transform_opt gen_transform_float value) = Ok (enc_vec c_FLOAT32_MISSING c_FLOAT32_FILL w value).
+Proof. exact translated_info_tuple_pipeline_float_lemma. Qed.
+Print Assumptions translated_info_tuple_pipeline_float.
 
 (* scalars (Number=1) and flags *)
 Theorem translated_scalars :
